@@ -1,2 +1,275 @@
+//! C12 – integer / bool parsing accepts std's language and returns the same value.
 use crate::common::*;
-pub fn run(_cfg: &Cfg) -> (&'static str, Report, String, String) { ("C12", Report::new(), String::new(), String::new()) }
+use konst::parsing::ParseDirection;
+use konst::Parser;
+
+/// reference for prefix parsing, written from the statement
+fn ref_prefix<T: std::str::FromStr>(s: &str, signed: bool) -> Option<(T, &str)> {
+    let b = s.as_bytes();
+    let mut i = 0;
+    if signed && b.first() == Some(&b'-') {
+        i = 1;
+    }
+    let ds = i;
+    while i < b.len() && b[i].is_ascii_digit() {
+        i += 1;
+    }
+    if i == ds {
+        return None;
+    }
+    s[..i].parse::<T>().ok().map(|v| (v, &s[i..]))
+}
+
+macro_rules! int_checks {
+    ($(($t:ident, $pf:ident, $signed:expr)),*) => {
+        /// run every integer type over one string
+        fn ints(r: &mut Report, s: &str) {
+            $(
+                // whole-string
+                let g = konst::primitive::$pf(s).ok();
+                let w: Option<$t> = if s.starts_with('+') { None } else { s.parse::<$t>().ok() };
+                r.ev(if w.is_some() { concat!(stringify!($pf), ":whole:Ok") } else { concat!(stringify!($pf), ":whole:Err") });
+                if g != w {
+                    r.fail(concat!("primitive::", stringify!($pf)), stringify!($pf), format!("s={:?}", s), format!("{:?}", g), format!("{:?}", w));
+                }
+                // prefix through the Parser (base offset 3 so that "consumes nothing" is visible)
+                let p = Parser::with_start_offset(s, 3);
+                let w = ref_prefix::<$t>(s, $signed);
+                r.ev(if w.is_some() { concat!(stringify!($pf), ":prefix:Ok") } else { concat!(stringify!($pf), ":prefix:Err") });
+                match (p.$pf(), w) {
+                    (Ok((gv, gp)), Some((wv, wrest))) => {
+                        mon_sub_str(r, concat!("Parser::", stringify!($pf)), s, gp.remainder());
+                        if gv != wv || gp.remainder() != wrest || gp.start_offset() != 3 + (s.len() - wrest.len()) || gp.end_offset() != 3 + s.len() {
+                            r.fail(concat!("Parser::", stringify!($pf)), stringify!($pf), format!("s={:?}", s),
+                                format!("Ok(({:?}, rem={:?}, start={}, end={}))", gv, gp.remainder(), gp.start_offset(), gp.end_offset()),
+                                format!("Ok(({:?}, rem={:?}, start={}, end={}))", wv, wrest, 3 + (s.len() - wrest.len()), 3 + s.len()));
+                        }
+                    }
+                    (Err(e), None) => {
+                        // fails without consuming anything: the error points at the start of the input parser
+                        if e.offset() != 3 || e.error_direction() != ParseDirection::FromStart {
+                            r.fail(concat!("Parser::", stringify!($pf), ".error"), stringify!($pf), format!("s={:?}", s),
+                                format!("offset={} dir={:?}", e.offset(), e.error_direction()), "offset=3 dir=FromStart".into());
+                        }
+                    }
+                    (g, w) => {
+                        r.fail(concat!("Parser::", stringify!($pf)), stringify!($pf), format!("s={:?}", s),
+                            format!("{:?}", g.map(|x| (x.0, x.1.remainder())).map_err(|e| e.kind())), format!("{:?}", w));
+                    }
+                }
+                // the parse_with!/HasParser route must be the same function
+                let g2 = konst::parse_with!(p, $t);
+                r.ev(concat!(stringify!($pf), ":parse_with"));
+                if g2.map(|x| (x.0, x.1.remainder())).ok() != p.$pf().map(|x| (x.0, x.1.remainder())).ok() {
+                    r.fail(concat!("parse_with!(", stringify!($t), ")"), "parse_with!", format!("s={:?}", s), "differs from the method".into(), "same as Parser method".into());
+                }
+            )*
+        }
+    };
+}
+int_checks!(
+    (u8, parse_u8, false), (i8, parse_i8, true), (u16, parse_u16, false), (i16, parse_i16, true),
+    (u32, parse_u32, false), (i32, parse_i32, true), (u64, parse_u64, false), (i64, parse_i64, true),
+    (u128, parse_u128, false), (i128, parse_i128, true), (usize, parse_usize, false), (isize, parse_isize, true)
+);
+
+fn bools(r: &mut Report, s: &str) {
+    let g = konst::primitive::parse_bool(s).ok();
+    let w = s.parse::<bool>().ok();
+    r.ev(if w.is_some() { "parse_bool:whole:Ok" } else { "parse_bool:whole:Err" });
+    if g != w {
+        r.fail("primitive::parse_bool", "parse_bool", format!("s={:?}", s), format!("{:?}", g), format!("{:?}", w));
+    }
+    let p = Parser::with_start_offset(s, 3);
+    let w: Option<(bool, &str)> = if let Some(x) = s.strip_prefix("true") {
+        Some((true, x))
+    } else if let Some(x) = s.strip_prefix("false") {
+        Some((false, x))
+    } else {
+        None
+    };
+    r.ev(if w.is_some() { "parse_bool:prefix:Ok" } else { "parse_bool:prefix:Err" });
+    match (p.parse_bool(), w) {
+        (Ok((gv, gp)), Some((wv, wrest))) if gv == wv && gp.remainder() == wrest && gp.start_offset() == 3 + s.len() - wrest.len() => {}
+        (Err(e), None) if e.offset() == 3 && e.error_direction() == ParseDirection::FromStart => {}
+        (g, w) => r.fail("Parser::parse_bool", "parse_bool", format!("s={:?}", s), format!("{:?}", g.map(|x| (x.0, x.1.remainder(), x.1.start_offset())).map_err(|e| (e.offset(), e.kind()))), format!("{:?}", w)),
+    }
+    if w.is_some() {
+        r.nt(&s);
+    }
+}
+
+fn nontrivial(r: &mut Report, s: &str) {
+    // distinct strings that are a number (optionally signed) with at least 2 digits
+    let t = s.strip_prefix('-').unwrap_or(s);
+    if t.len() >= 2 && t.bytes().all(|b| b.is_ascii_digit()) {
+        r.nt(&s);
+    }
+}
+
+const PREFIXES: [&str; 11] = ["", "0", "00", "000", "0000", "-", "+", "-0", " ", "-00", "+0"];
+const SUFFIXES: [&str; 9] = ["", "0", "9", " ", "a", "٣", "-", "+", "_"];
+
+fn decorated(r: &mut Report, core: &str) {
+    let neg = core.starts_with('-');
+    let digits = core.trim_start_matches('-');
+    for p in PREFIXES {
+        for sfx in SUFFIXES {
+            // prefix goes between the sign and the digits
+            let s = if neg && !p.starts_with(['-', '+', ' ']) { format!("-{}{}{}", p, digits, sfx) } else { format!("{}{}{}", p, core, sfx) };
+            ints(r, &s);
+            nontrivial(r, &s);
+        }
+    }
+}
+
+/// boundary neighbourhoods for the wide types, built by string mutation (the reference is std's parser)
+fn wide_candidates() -> Vec<String> {
+    let mut bases: Vec<String> = Vec::new();
+    macro_rules! b {
+        ($($t:ident)*) => {$(
+            bases.push($t::MAX.to_string());
+            bases.push(($t::MAX / 10).to_string());
+            bases.push(($t::MAX / 10 + 1).to_string());
+            #[allow(unused_comparisons)]
+            if $t::MIN < 0 { bases.push($t::MIN.to_string()); bases.push(($t::MIN / 10).to_string()); bases.push(($t::MIN / 10).wrapping_sub(1).to_string()); }
+        )*};
+    }
+    b!(u8 i8 u16 i16 u32 i32 u64 i64 u128 i128 usize isize);
+    bases.push("340282366920938463463374607431768211456".into()); // 2^128
+    bases.push("99999999999999999999999999999999999999999".into());
+    bases.push("10000000000000000000000000000000000000000".into());
+    bases.sort();
+    bases.dedup();
+    let mut out: Vec<String> = Vec::new();
+    for b in &bases {
+        let neg = b.starts_with('-');
+        let d = b.trim_start_matches('-');
+        let mut forms: Vec<String> = vec![d.to_string()];
+        // vary the last digit, append a digit, drop a digit
+        for c in b'0'..=b'9' {
+            let mut x = d.as_bytes().to_vec();
+            *x.last_mut().unwrap() = c;
+            forms.push(String::from_utf8(x).unwrap());
+            forms.push(format!("{}{}", d, c as char));
+        }
+        if d.len() > 1 {
+            forms.push(d[..d.len() - 1].to_string());
+            // vary the first digit
+            for c in b'1'..=b'9' {
+                let mut x = d.as_bytes().to_vec();
+                x[0] = c;
+                forms.push(String::from_utf8(x).unwrap());
+            }
+        }
+        for f in forms {
+            for z in [0usize, 1, 2, 3, 5, 20, 40, 45] {
+                let padded = format!("{}{}", "0".repeat(z), f);
+                out.push(padded.clone());
+                out.push(format!("-{}", padded));
+                if neg {
+                    out.push(format!("+{}", padded));
+                }
+            }
+        }
+    }
+    out.sort();
+    out.dedup();
+    out
+}
+
+pub fn run(cfg: &Cfg) -> (&'static str, Report, String, String) {
+    let mut rep = Report::new();
+    // (a) every value of the 8-bit types, and of the 16-bit types (strided in the quick tier), decorated
+    let stride16: i32 = cfg.by(4099, 7, 1);
+    let mut cores: Vec<String> = Vec::new();
+    for v in i8::MIN as i32..=u8::MAX as i32 {
+        cores.push(v.to_string());
+    }
+    if !cfg.miri() {
+        let mut v = i16::MIN as i32 - 3;
+        while v <= u16::MAX as i32 + 3 {
+            if !(-200..=300).contains(&v) {
+                cores.push(v.to_string());
+            }
+            v += stride16;
+        }
+        for b in [i16::MIN as i32, i16::MAX as i32, u16::MAX as i32] {
+            for d in -3..=3 {
+                cores.push((b + d).to_string());
+            }
+        }
+    }
+    cores.sort();
+    cores.dedup();
+    rep.merge(par_for(cfg, cores.len(), |i, r| {
+        decorated(r, &cores[i]);
+        if i == 77 {
+            r.sample(|| format!("core={:?} x {} prefixes x {} suffixes x 12 integer types (whole-string, Parser prefix parse, parse_with!)", cores[i], PREFIXES.len(), SUFFIXES.len()));
+        }
+    }));
+    // (b) all short strings over a hostile alphabet
+    let alpha = ["0", "1", "9", "-", "+", "a", " ", "٣"];
+    let all = strings_upto(&alpha, cfg.by(2, 4, 6));
+    rep.merge(par_for(cfg, all.len(), |i, r| {
+        ints(r, &all[i]);
+        nontrivial(r, &all[i]);
+    }));
+    // (c) wide-type neighbourhoods
+    let wide = wide_candidates();
+    rep.merge(par_for(cfg, wide.len(), |i, r| {
+        if cfg.miri() && i % 97 != 0 {
+            return;
+        }
+        for sfx in ["", ";rest", "a", " 1"] {
+            let s = format!("{}{}", wide[i], sfx);
+            ints(r, &s);
+            nontrivial(r, &s);
+        }
+        if i == 1000 {
+            r.sample(|| format!("wide candidate {:?} (+ suffixes)", wide[i]));
+        }
+    }));
+    // (d) bool
+    let balpha = ["t", "r", "u", "e", "f", "a", "l", "s", " "];
+    let ball = strings_upto(&balpha, cfg.by(3, 5, 6));
+    rep.merge(par_for(cfg, ball.len(), |i, r| bools(r, &ball[i])));
+    if cfg.mine(0) {
+        for core in ["true", "false", "True", "TRUE", "fals", "tru", "truefalse", "falsetrue"] {
+            for sfx in ["", " ", "e", "x", "1", "\u{0}", "ñ"] {
+                for pre in ["", " ", "+"] {
+                    bools(&mut rep, &format!("{}{}{}", pre, core, sfx));
+                }
+            }
+        }
+    }
+    // (e) seeded random digit strings
+    let nrand = cfg.by(5, 2000, 30000);
+    rep.merge(par_for(cfg, nrand, |i, r| {
+        let mut rng = Rng::new(cfg.seed.wrapping_mul(65_537).wrapping_add(i as u64));
+        let mut s = String::new();
+        if rng.chance(1, 3) {
+            s.push('-');
+        }
+        for _ in 0..rng.below(6) {
+            s.push('0');
+        }
+        for _ in 0..rng.below(42) {
+            s.push((b'0' + rng.below(10) as u8) as char);
+        }
+        if rng.chance(1, 3) {
+            s.push_str(*rng.pick(&["", "x", " ", "-1", "٣"]));
+        }
+        ints(r, &s);
+        nontrivial(r, &s);
+        if i == 2 {
+            r.sample(|| format!("random {:?}", s));
+        }
+    }));
+    (
+        "C12",
+        rep,
+        format!("every value of u8/i8 and of u16/i16 (stride {}) x 11 prefixes (leading zeros, signs, space) x 9 suffixes; all {} strings over {{0,1,9,-,+,a,' ',٣}}; {} wide-type boundary strings (MAX, MIN, /10, last/first digit varied, extra digit, dropped digit, 0-45 leading zeros, signs) x 4 suffixes; all {} strings over {{t,r,u,e,f,a,l,s,' '}} for bool; {} random digit strings — each for all 12 integer types", stride16, all.len(), wide.len(), ball.len(), nrand),
+        "one evaluation = one parse of one string by one type: primitive::parse_<t> vs str::parse (strings starting with '+' must be rejected), Parser::parse_<t> vs the prefix reference (optional '-' for signed, longest digit run, value via str::parse, remainder and both offsets compared; on failure error offset = start offset of the input parser and direction FromStart), parse_with! = method; non-trivial = distinct strings that are an optionally signed run of >= 2 digits (bool: strings with a true/false prefix)".into(),
+    )
+}
